@@ -371,6 +371,53 @@ func c14Run(c *core.Ctx) {
 				c.Tick()
 			}
 		}
+		// word family: contents made of up to three words (thorough: four for at most 12 words) from the short string
+		// literals of the helper's current source, as length-prefixed labels and as dot-separated text, bare and behind an
+		// outer length octet — a branch that looks for particular labels, prefixes or suffixes in a particular order is
+		// reached by no octet alphabet
+		{
+			words, dropped := c14SourceWords(h.name)
+			if dropped > 0 && c.Shard == 0 {
+				c.Cap(fmt.Sprintf("%s: %d of the source's short string literals are beyond the 32-word alphabet", h.name, dropped))
+			}
+			emit := func(seq []string) {
+				var lab []byte
+				for _, w := range seq {
+					lab = append(append(lab, byte(len(w))), w...)
+				}
+				txt := []byte(strings.Join(seq, "."))
+				for _, body := range [][]byte{lab, txt} {
+					run(body)
+					if len(body) <= 255 {
+						run(append([]byte{byte(len(body))}, body...))
+						run(append(append([]byte{byte(len(body))}, body...), 0x01, 'a'))
+					}
+				}
+			}
+			for wi, w1 := range words {
+				u++
+				if !c.Mine(u) {
+					continue
+				}
+				if !c.Begin("words", h.name, c14Case{Helper: h.name, Hex: hexs([]byte(w1))}) {
+					continue
+				}
+				emit([]string{w1})
+				for _, w2 := range words {
+					emit([]string{w1, w2})
+					for _, w3 := range words {
+						emit([]string{w1, w2, w3})
+						if thorough && len(words) <= 12 {
+							for _, w4 := range words {
+								emit([]string{w1, w2, w3, w4})
+							}
+						}
+					}
+				}
+				_ = wi
+				c.Tick()
+			}
+		}
 		// mutations of valid encodings: every truncation, every single-octet replacement by all 256 values,
 		// single deletions/insertions, and pairs of replacements from the small alphabet
 		for si, seed := range seeds {
